@@ -153,6 +153,28 @@ Example c20_helper_example :
   (let s := r_run true (mkR 0 0) [RStart; RFinish] in helper (r_region s) (r_level s) FromStart 3 5 7 1) = Refused.
 Proof. repeat split; vm_compute; reflexivity. Qed.
 
+(* the way the library's own routines use the machinery (open a region, loop over a distributed range, all-reduce, close): from
+   any consistent configuration, nested or not, with or without MPI, every process ends with the serial sum and the configuration
+   is restored *)
+Theorem c20_region_protocol_reduces_to_serial : forall (A : Type) (op : A -> A -> A) (e : A),
+  (forall x y z, op x (op y z) = op (op x y) z) -> (forall x, op e x = x) ->
+  forall (f : Z -> A) (sh : bool) s size start stop rank, 1 <= size -> start <= stop -> 0 <= r_region s -> 0 <= r_level s ->
+  let s1 := fst (r_step sh s RStart) in
+  helper (r_region s1) (r_level s1) FromStart size start stop (Z.of_nat rank)
+    = Handed (api_block (r_level s1) FromStart size start stop (Z.of_nat rank)) /\
+  reduce_mode (r_region s1) (r_level s1) <> RRefused /\
+  after_allreduce op e (r_level s1) size
+    (fun r => msum A op e (map f (api_block (r_level s1) FromStart size start stop (Z.of_nat r)))) rank
+  = msum A op e (map f (zrange start stop)) /\
+  r_step sh s1 RFinish = (s, false).
+Proof. exact region_protocol_reduces_to_serial. Qed.
+Print Assumptions c20_region_protocol_reduces_to_serial.
+
+Example c20_protocol_example :
+  well_formed [PS; PQ 0; PA true; PF; PRet] = true /\ well_formed [PS; PQ 0; PF] = false /\ well_formed [PS; PQ 0; PF; PA true] = false /\
+  r_step true (fst (r_step true (mkR 1 1) RStart)) RFinish = (mkR 1 1, false).
+Proof. repeat split. Qed.
+
 (* non-vacuity: a concrete non-trivial instance *)
 Example c20_example : ranges FromStart 3 5 12 = [(5,7); (7,10); (10,12)].
 Proof. vm_compute. reflexivity. Qed.
